@@ -1,5 +1,48 @@
 //! C05: shifts and rotations.
+//!
+//! `op cfg a k` for overflowing_/checked_/wrapping_/unbounded_/strict_ shl and shr, rotate_left/right;
+//! `shl|shr cfg dbg|rel a k`          the inherent `trait_fillers!` functions `x.shl(k)`, `x.shr(k)`;
+//! `shl_op|shr_op cfg dbg|rel a k`    the operators `x << k`, `x >> k` (`Shl<ExpType>` / `Shr<ExpType>`);
+//! `shl_assign|shr_assign cfg dbg|rel a k`   `x <<= k`, `x >>= k` (`ShlAssign<u32>` / `ShrAssign<u32>`);
+//! `unchecked_shl|unchecked_shr cfg a k`     the `unsafe` methods; only legal for `k < BITS` — for any
+//!     other amount the call would be undefined behaviour, so the harness refuses the request (`bad-op`).
 use bnum_verif_harness::*;
+use core::ops::{Shl, ShlAssign, Shr, ShrAssign};
+
+macro_rules! extra {
+    ($T:ty, $op:expr, $a:expr) => {{
+        let op: &str = $op;
+        let a: &[&str] = $a;
+        match op {
+            "unchecked_shl" | "unchecked_shr" => {
+                let x = <$T>::from_hex(a[0]);
+                let k = parse_u32(a[1]);
+                if k >= <$T>::BITS {
+                    return None; // would be UB: never executed
+                }
+                return Some(if op == "unchecked_shl" { unsafe { x.unchecked_shl(k) }.out() } else { unsafe { x.unchecked_shr(k) }.out() });
+            }
+            "shl_op" | "shr_op" | "shl_assign" | "shr_assign" => {
+                if !mode_ok(a[0]) {
+                    return Some("skip".into());
+                }
+                let x = <$T>::from_hex(a[1]);
+                let k: u32 = parse_u32(a[2]);
+                return Some(match op {
+                    "shl_op" => (x << k).out(),
+                    "shr_op" => (x >> k).out(),
+                    "shl_assign" => { let mut z = x; <$T as ShlAssign<u32>>::shl_assign(&mut z, k); z.out() }
+                    _ => { let mut z = x; <$T as ShrAssign<u32>>::shr_assign(&mut z, k); z.out() }
+                });
+            }
+            _ => {}
+        }
+    }};
+}
+
+/// the operators must resolve to the trait impls for `u32` (not to the inherent `shl`/`shr`)
+#[allow(dead_code)]
+fn _assert_traits<T: Shl<u32, Output = T> + Shr<u32, Output = T> + ShlAssign<u32> + ShrAssign<u32>>() {}
 
 macro_rules! imp {
     ($U:ident, $I:ident, $D:ty, $N:literal) => {{
@@ -13,13 +56,17 @@ macro_rules! imp {
                 bin_ops!(op, u, k, overflowing_shl, overflowing_shr, checked_shl, checked_shr, wrapping_shl, wrapping_shr,
                     unbounded_shl, unbounded_shr, rotate_left, rotate_right, strict_shl, strict_shr);
                 bin_ops_mode!(op, a, u, k, shl, shr);
+                extra!(UT, op, a);
             } else {
                 bin_ops!(op, s, k, overflowing_shl, overflowing_shr, checked_shl, checked_shr, wrapping_shl, wrapping_shr,
                     unbounded_shl, unbounded_shr, rotate_left, rotate_right, strict_shl, strict_shr);
                 bin_ops_mode!(op, a, s, k, shl, shr);
+                extra!(IT, op, a);
             }
             None
         }
+        let _ = _assert_traits::<UT>;
+        let _ = _assert_traits::<IT>;
         Some(run as fn(bool, &str, &[&str]) -> Option<String>)
     }};
 }
